@@ -156,6 +156,32 @@ func blObserve(bl *utils.BitList, m []bool) string {
 	if !bytes.Equal(got, want) {
 		return fmt.Sprintf("IterateBytes() differs from the packed model: got % x want % x", truncB(got), truncB(want))
 	}
+	// two byte views alive at once: the first one is started and read by one byte, a second list is
+	// iterated completely, then the first is drained; each view delivers its own list
+	if len(want) > 0 {
+		other := new(utils.BitList)
+		for i := 0; i < 5; i++ {
+			other.AddByte(byte(0x3C + 17*i))
+		}
+		ch1 := bl.IterateBytes()
+		got1 := []byte{<-ch1}
+		var got2 []byte
+		for b := range other.IterateBytes() {
+			got2 = append(got2, b)
+		}
+		for b := range ch1 {
+			got1 = append(got1, b)
+			if len(got1) > len(want)+8 {
+				break
+			}
+		}
+		if !bytes.Equal(got2, other.GetBytes()) || len(got2) != 5 {
+			return fmt.Sprintf("IterateBytes() of a second list while a first view is open differs: got % x want % x", truncB(got2), truncB(other.GetBytes()))
+		}
+		if !bytes.Equal(got1, want) {
+			return fmt.Sprintf("IterateBytes() view that was open while another list was iterated differs from the packed model: got % x want % x", truncB(got1), truncB(want))
+		}
+	}
 	// the producer goroutine must be gone (a leaked goroutine never exits: the grace period only delays)
 	for i := 0; runtime.NumGoroutine() > before; i++ {
 		if i > 20000 {
